@@ -35,7 +35,7 @@ wincode::pod_wrapper! {
 /// Digital signature.
 ///
 /// This is a wrapper around [`ed25519_zebra::Signature`].
-#[derive(Clone, Copy, Debug, SchemaRead, SchemaWrite)]
+#[derive(Clone, Copy, Debug, PartialEq, Eq, SchemaRead, SchemaWrite)]
 pub struct Signature(#[wincode(with = "PodSignature")] ed25519_zebra::Signature);
 
 impl SecretKey {
